@@ -19,6 +19,14 @@ RULE = ("per (scenario, victim role): the peer is a key-holding deviant "
         "if the received sequence is in the language; out-of-language => no "
         "completion, no application data delivered, failure is a fatal alert "
         "(or the victim is still waiting for a mandatory message). Also: "
+        "Deviations also include: a message straddling a key change, "
+        "messages appended after the handshake, extra messages kept out "
+        "of the deviant's own transcript (repeated hello, ticket, "
+        "HelloRequest), a *protected* ChangeCipherSpec, a "
+        "no_certificate warning in place of a message; the first "
+        "message after which the sequence cannot be completed legally "
+        "must be answered by the victim's own alert, readable by the "
+        "peer.   "
         "renegotiation attempts after completion. distinct_nontrivial = "
         "distinct (scenario, role, deviation, verdict) cells + distinct "
         "received sequences.")
